@@ -22,9 +22,9 @@ TARGETS = {
     "internal/flatten/operations/operations.go": FLS,
     "internal/flatten/normalize/normalize.go": FL,
     "internal/flatten/schutils/flatten_schema.go": FL,
-    "internal/flatten/sortref/keys.go": FLS,
+    "internal/flatten/sortref/keys.go": FL,
     "internal/flatten/sortref/sort_ref.go": FLS,
-    "flatten_name.go": FLS,
+    "flatten_name.go": FL,
     "internal/flatten/replace/replace.go": FL,
     "flatten.go": FL,
     "flatten_options.go": FL,
